@@ -392,6 +392,8 @@ def draw_sched(W, allow_trace=True, walk_p=0.6, means=(3, 10, 30, 100, 300), pct
     if trace == "all" and W.chance(0.35):
         # one module's lines count eightfold towards the next pre-emption
         sched["hot"] = W.choice(["buffers.py", "channel.py", "task.py", "trigger.py", "wasyncore.py", "server.py"])
+    if arm == 1 and W.chance(0.3):
+        sched["release_bias"] = True  # walk: pre-empt right after lock releases five times as often
     if W.chance(0.25):
         sched["delay"] = True
     if W.chance(0.3):
